@@ -122,8 +122,28 @@ def _uid_storms():
     yield {"start": 1, "ops": [["add", "g", "xor", ["a", "b"], "o", False, True] for _ in range(16)]}
 
 
+def _targeted():
+    # a blackbox output connected to several driverless bufs in one call
+    for i, pin in ((2, "s"), (1, "q"), (3, "g")):
+        for tgt in (["b1", "b2"], ["b1", "b1"], ["b2", "b1", "b3"]):
+            yield {"start": 0, "ops": [["add_blackbox", i, "v", {}], ["add", "b1", "buf", None, None, False, False],
+                                       ["add", "b2", "buf", None, None, True, False], ["add", "b3", "buf", None, None, True, False],
+                                       ["connect", f"v.{pin}", tgt]]}
+            yield {"start": 0, "ops": [["add_blackbox", i, "v", {}], ["add", "b1", "buf", None, None, False, False],
+                                       ["add", "b2", "buf", None, None, True, False], ["add", "b3", "buf", None, None, True, False],
+                                       ["connect", [f"v.{pin}"], tgt[0]], ["connect", [f"v.{pin}"], tgt[1:]]]}
+    # filling an instance whose child carries a nested blackbox, while the prefixed nested name is taken
+    for i in range(len(BBTYPES)):
+        yield {"start": 2, "ops": [["add_blackbox", i, "u_x", {}], ["fill_blackbox", "u", 3]]}
+        yield {"start": 2, "ops": [["add_blackbox", i, "u_x", {}], ["fill_blackbox", "u", 3], ["fill_blackbox", "u", 0]]}
+        yield {"start": 0, "ops": [["add", "a", "input", None, None, False, False], ["add_blackbox", 0, "w", {"x": "a", "y": "a"}],
+                                   ["add_blackbox", i, "w_x", {}], ["fill_blackbox", "w", 3], ["add_subcircuit", 3, "w", {}]]}
+        yield {"start": 0, "ops": [["add_blackbox", i, "w_x", {}], ["add_subcircuit", 3, "w", {}]]}
+
+
 def core(ctx):
     yield from _uid_storms()
+    yield from _targeted()
     for s in range(3):
         for op in CATALOGUE:
             yield {"start": s, "ops": [op]}
@@ -193,14 +213,21 @@ def _stateful_case(draw, ctx):
             else:
                 n = f"w{fresh}"
                 fresh += 1
-            t = draw(st.sampled_from(["and", "or", "xor", "nand", "nor", "xnor", "buf", "not", "input", "0", "1", "bb_output", "bb_input"]))
+            t = draw(st.sampled_from(["and", "or", "xor", "nand", "nor", "xnor", "buf", "buf", "not", "input", "0", "1", "bb_output", "bb_input"]))
             k = draw(st.integers(0, 3))
             fi = draw(st.lists(anynode, min_size=k, max_size=k)) if k else None
             fo = draw(st.one_of(st.none(), st.none(), anynode, st.lists(anynode, min_size=1, max_size=2)))
             op = ["add", n, t, fi, fo, draw(st.booleans()), uid]
         elif kind == "connect":
-            op = ["connect", draw(st.one_of(anynode, st.lists(anynode, min_size=1, max_size=2))),
-                  draw(st.one_of(anynode, st.lists(anynode, min_size=1, max_size=2)))]
+            g_ = c.graph
+            bbo = [x for x in nodes if g_.nodes[x].get("type") == "bb_output"]
+            free_bufs = [x for x in nodes if g_.nodes[x].get("type") == "buf" and not g_.pred[x]]
+            if bbo and free_bufs and draw(st.integers(0, 2)) == 0:
+                # from a blackbox output to one or several driverless bufs
+                op = ["connect", draw(st.sampled_from(bbo)), draw(st.lists(st.sampled_from(free_bufs), min_size=1, max_size=3))]
+            else:
+                op = ["connect", draw(st.one_of(anynode, st.lists(anynode, min_size=1, max_size=2))),
+                      draw(st.one_of(anynode, st.lists(anynode, min_size=1, max_size=2)))]
         elif kind == "disconnect":
             edges = sorted(c.graph.edges)
             if edges and draw(st.booleans()):
@@ -219,7 +246,7 @@ def _stateful_case(draw, ctx):
             for pn in pins:
                 if draw(st.booleans()):
                     conns[pn] = draw(anynode)
-            nm = draw(st.sampled_from(["u", "v", "w", "i%d" % fresh] + insts))
+            nm = draw(st.sampled_from(["u", "v", "w", "i%d" % fresh] + insts + [f"{x}_x" for x in insts]))
             op = ["add_blackbox", i, nm, conns]
         elif kind == "add_subcircuit":
             i = draw(st.integers(0, len(CHILDREN) - 1))
